@@ -7,13 +7,17 @@
 //!   c<i>:<j>    clone slot i into slot j
 //!   m<i>        morph slot i to the other token type
 //!   s<i>        wrap slot i with spanned()
+//!   f<i>        a fresh lexer of type A over the SECOND buffer in slot i
+//!   k<i>:<j>    slots[j].clone_from(&slots[i])  (Clone::clone_from; same kind in both slots)
 //! After every op the observation of both slots is printed:
-//!   [kind, spanned, start, end, extras, slice_ok, remainder_ok]
+//!   [kind, spanned, start, end, extras, slice_ok, remainder_ok, buffer]
+//! buffer = which of the two buffers source() refers to (1, 2; 0 = neither); slice_ok / remainder_ok compare
+//! slice() / remainder() with THAT buffer.
 
 #[macro_export]
 macro_rules! api_pair {
     ($fname:ident, $A:ty, $B:ty, $mk:expr) => {
-        pub fn $fname(bytes: &[u8], partial: bool, script: &str, out: &mut String) {
+        pub fn $fname<'x>(bytes: &'x [u8], bytes2: &'x [u8], partial: bool, script: &str, out: &mut String) {
             use logos::{Lexer, Logos, SpannedIter};
             use std::fmt::Write as _;
             use std::panic::{catch_unwind, AssertUnwindSafe};
@@ -29,6 +33,10 @@ macro_rules! api_pair {
                 out.push_str("\"badutf8\":true");
                 return;
             };
+            let Some(src2) = $mk(bytes2) else {
+                out.push_str("\"badutf8\":true");
+                return;
+            };
             fn parse_n(s: &str) -> usize {
                 if let Some(k) = s.strip_prefix("MAX-") {
                     usize::MAX - k.parse::<usize>().unwrap()
@@ -40,6 +48,15 @@ macro_rules! api_pair {
                 ($l:expr, $kind:expr, $sp:expr, $out:expr) => {{
                     let l = $l;
                     let span = l.span();
+                    // which buffer does the lexer read?  (identity of source(), not its content)
+                    let sp_ptr = l.source().bytes_of().as_ptr();
+                    let (buf, bytes): (u8, &[u8]) = if std::ptr::eq(sp_ptr, bytes.as_ptr()) && l.source().bytes_of().len() == bytes.len() {
+                        (1, bytes)
+                    } else if std::ptr::eq(sp_ptr, bytes2.as_ptr()) && l.source().bytes_of().len() == bytes2.len() {
+                        (2, bytes2)
+                    } else {
+                        (0, bytes)
+                    };
                     let valid = span.start <= span.end && span.end <= bytes.len();
                     // slice()/remainder() are only called when the span is in range: with an
                     // out-of-range span the default build would be undefined behaviour, and an
@@ -52,7 +69,7 @@ macro_rules! api_pair {
                     } else {
                         (false, false)
                     };
-                    let _ = write!($out, "[\"{}\",{},{},{},{},{},{}]", $kind, $sp, span.start, span.end, l.extras, sl, rm);
+                    let _ = write!($out, "[\"{}\",{},{},{},{},{},{},{}]", $kind, $sp, span.start, span.end, l.extras, sl, rm, buf);
                 }};
             }
             fn item<T: std::fmt::Debug, E: std::fmt::Debug>(it: Option<Result<T, E>>, span: std::ops::Range<usize>, out: &mut String) {
@@ -78,9 +95,9 @@ macro_rules! api_pair {
                     Slot::Empty => Slot::Empty,
                 }
             }
-            let mut slots: [Slot; 2] = [Slot::Empty, Slot::Empty];
+            let mut slots: [Slot<'x>; 2] = [Slot::Empty, Slot::Empty];
             slots[0] = if partial { Slot::A(Lexer::new_partial(src)) } else { Slot::A(Lexer::new(src)) };
-            let apply = |slots: &mut [Slot; 2], op: &str, out: &mut String| {
+            let apply = |slots: &mut [Slot<'x>; 2], op: &str, out: &mut String| {
                 let kind = op.as_bytes()[0];
                 let rest = &op[1..];
                 let (i, arg) = match rest.split_once(':') {
@@ -147,6 +164,22 @@ macro_rules! api_pair {
                         };
                         out.push_str("[\"ok\",\"\",0,0]");
                     }
+                    b'f' => {
+                        slots[i] = if partial { Slot::A(Lexer::new_partial(src2)) } else { Slot::A(Lexer::new(src2)) };
+                        out.push_str("[\"ok\",\"\",0,0]");
+                    }
+                    b'k' => {
+                        let j: usize = arg.unwrap().parse().unwrap();
+                        let from = clone_slot(&slots[i]);
+                        match (&mut slots[j], &from) {
+                            (Slot::A(a), Slot::A(b)) => a.clone_from(b),
+                            (Slot::B(a), Slot::B(b)) => a.clone_from(b),
+                            (Slot::SA(a), Slot::SA(b)) => a.clone_from(b),
+                            (Slot::SB(a), Slot::SB(b)) => a.clone_from(b),
+                            _ => {}
+                        }
+                        out.push_str("[\"ok\",\"\",0,0]");
+                    }
                     b's' => {
                         let old = std::mem::replace(&mut slots[i], Slot::Empty);
                         slots[i] = match old {
@@ -168,7 +201,7 @@ macro_rules! api_pair {
                         Slot::B(l) => obs1!(l, "B", false, out),
                         Slot::SA(l) => obs1!(&**l, "A", true, out),
                         Slot::SB(l) => obs1!(&**l, "B", true, out),
-                        Slot::Empty => out.push_str("[\"-\",false,0,0,0,true,true]"),
+                        Slot::Empty => out.push_str("[\"-\",false,0,0,0,true,true,1]"),
                     }
                 }
                 out.push_str("]}");
